@@ -261,12 +261,27 @@ theorem rms_eq (x : List ℝ) : rms x = Real.sqrt (dot x x / x.length) := by
 
 theorem rms_nonneg (x : List ℝ) : 0 ≤ rms x := by rw [rms_eq]; exact Real.sqrt_nonneg _
 
-theorem nonzero_of_pos {s : ℝ} (h : 0 < s) : nonzero s = s := by unfold nonzero; rw [if_pos h]
+/-- the generated guard (`np.where(norm == 0, 1, norm)` on a norm `≥ 0`, i.e. `norm ≤ 0`) in the form
+    the lemmas use -/
+theorem nonzero_def (s : ℝ) : nonzero s = if 0 < s then s else 1 := by
+  unfold nonzero Rsa.Gen.C07.nonzeroGuard
+  by_cases h : 0 < s
+  · rw [if_pos h, if_neg (by push_cast; exact not_le.mpr h)]
+  · rw [if_neg h, if_pos (by push_cast; exact not_lt.mp h)]; norm_num
 
-theorem nonzero_of_not_pos {s : ℝ} (h : ¬ 0 < s) : nonzero s = 1 := by unfold nonzero; rw [if_neg h]
+theorem nonzeroP_eq (s : ℝ) : nonzeroP s = nonzero s := by
+  rw [nonzero_def]
+  unfold nonzeroP Rsa.Gen.C07.poolingNonzeroGuard
+  by_cases h : 0 < s
+  · rw [if_pos h, if_neg (by push_cast; exact not_le.mpr h)]
+  · rw [if_neg h, if_pos (by push_cast; exact not_lt.mp h)]; norm_num
+
+theorem nonzero_of_pos {s : ℝ} (h : 0 < s) : nonzero s = s := by rw [nonzero_def, if_pos h]
+
+theorem nonzero_of_not_pos {s : ℝ} (h : ¬ 0 < s) : nonzero s = 1 := by rw [nonzero_def, if_neg h]
 
 theorem nonzero_pos (s : ℝ) : 0 < nonzero s := by
-  unfold nonzero; split_ifs with h
+  rw [nonzero_def]; split_ifs with h
   · exact h
   · exact one_pos
 
